@@ -24,6 +24,7 @@
 #include "rtrlib/spki/hashtable/ht-spkitable_private.h"
 #include "rtrlib/transport/transport.h"
 #include "vh.h"
+#include "vh_alloc.h"
 
 #include <arpa/inet.h>
 #include <pthread.h>
@@ -1109,6 +1110,11 @@ int main(int argc, char **argv)
 	out = fopen(argv[2], "w");
 	if (!f || !out)
 		return 2;
+	if (getenv("VH_FAIL_AT") || getenv("VH_COUNT_ALLOCS")) {
+		if (getenv("VH_FAIL_AT"))
+			fail_at = atol(getenv("VH_FAIL_AT"));
+		lrtr_set_alloc_functions(v_malloc, v_realloc, v_free);
+	}
 	setvbuf(out, NULL, _IOFBF, 1 << 20);
 	alarm(getenv("VH_ALARM") ? atoi(getenv("VH_ALARM")) : 120); /* real-time safety net */
 	sem_init(&sem_done, 0, 0);
@@ -1134,5 +1140,7 @@ int main(int argc, char **argv)
 		}
 	}
 	fclose(out);
+	if (getenv("VH_COUNT_ALLOCS") || getenv("VH_FAIL_AT"))
+		printf("ALLOCS %ld LIVE %ld MISUSE %d\n", alloc_count, live_blocks, alloc_misuse);
 	return 0;
 }
